@@ -31,7 +31,8 @@ type c08case struct {
 	PVals    []any // Go value or nil (NULL); raw []byte for untyped
 	PRaw     [][]byte
 	PFmts    []int16
-	OddCodes bool // number of parameter format codes is neither 0, 1 nor the number of values
+	Loose    map[int]bool // parameters whose text a decoder may accept, complete or refuse (an abbreviated timestamp): their Scan result is not judged, their bytes are
+	OddCodes bool         // number of parameter format codes is neither 0, 1 nor the number of values
 	ColOIDs  []uint32
 	Row      []any
 	RFmts    []int16
@@ -102,6 +103,15 @@ func c08gen(rng *core.Rng, big bool) c08case {
 			}
 			k.PVals = append(k.PVals, v)
 			raw := pg.Encode(o, f, v)
+			if (o == pg.OIDTimestamp || o == pg.OIDTimestamptz) && f == 0 && rng.Intn(3) == 0 {
+				// a date where a timestamp is declared, a timestamp without seconds: whatever the decoder makes
+				// of it, it is this parameter's business alone
+				raw = []byte(core.Pick(rng, []string{"2024-02-29", "1999-12-31", "2024-02-29 10:00", "2024-02-29T10:00:00", "20240229", "2024-02-29 "}))
+				if k.Loose == nil {
+					k.Loose = map[int]bool{}
+				}
+				k.Loose[i] = true
+			}
 			if a, ok := v.([]int32); ok && f == 0 && len(a) > 0 && rng.Bool() {
 				// the same array with an explicit dimension decoration (lower bound 0 or -2)
 				lb := core.Pick(rng, []int{0, -2, 1, 5})
@@ -450,7 +460,7 @@ func (ch c08) runCase(c *core.Ctx, env *hs.Env, k c08case, idx int) {
 		// ... and the parameters are still what the client sent
 		for i, p := range params {
 			if i < len(k.PRaw) && string(p.Value()) != string(k.PRaw[i]) {
-				sc.Edited = fmt.Sprintf("parameter %d: Value() is %s after the handler edited what Scan had returned, sent %s", i, hexs(p.Value()), hexs(k.PRaw[i]))
+				sc.Edited = fmt.Sprintf("parameter %d: Value() is %s after the parameters were scanned, sent %s", i, hexs(p.Value()), hexs(k.PRaw[i]))
 			}
 		}
 		hs.ConnOf(ctx).CB("scan", sc)
@@ -566,7 +576,7 @@ func (ch c08) runCase(c *core.Ctx, env *hs.Env, k c08case, idx int) {
 		return
 	}
 	if sc.Edited != "" {
-		viol("value", "what Parameter.Scan returns shares memory with the bound parameter: a handler editing the decoded value changes the parameter", sc.Edited)
+		viol("value", "a parameter's bytes changed while the handler scanned the parameters (and edited in place what Scan had returned): Scan results and parameters share memory, or a Scan wrote into its neighbour", sc.Edited)
 		return
 	}
 	if len(rec.Params) != len(k.PRaw) {
@@ -617,7 +627,9 @@ func (ch c08) runCase(c *core.Ctx, env *hs.Env, k c08case, idx int) {
 				return
 			}
 		}
-		if k.POIDs[i] != 0 {
+		if k.Loose[i] {
+			c.Count("abbreviated_timestamps_next_to_other_parameters", 1)
+		} else if k.POIDs[i] != 0 {
 			c.Count("scans_compared", 1)
 			wantC := "NULL"
 			if sent != nil {
